@@ -175,6 +175,16 @@ def r2(ctx):
             key = [k.value for k in v.keywords if k.arg == "key"]
             ok = bool(key) and isinstance(key[0], ast.Lambda) and u(key[0].body).endswith(".block_id") and not any(k.arg == "reverse" for k in v.keywords)
             ctx.ob(fi.qual, "results-order:pool", ok, fi.loc(s), "pool results are re-sorted by block_id before aggregation" if ok else "pool results are not sorted by block_id: %s" % u(v))
+        elif [c for c in ctx.prog.calls_in(fi.node) if isinstance(c.func, ast.Attribute) and c.func.attr == "sort" and u(c.func.value) == rname and cfg.dominates(cfg.node_of(s), cfg.node_containing(c))]:
+            # collected in any order, then sorted in place before it is used
+            srt = [c for c in ctx.prog.calls_in(fi.node) if isinstance(c.func, ast.Attribute) and c.func.attr == "sort" and u(c.func.value) == rname and cfg.dominates(cfg.node_of(s), cfg.node_containing(c))]
+            key = [k.value for k in srt[0].keywords if k.arg == "key"]
+            ok = len(srt) == 1 and not srt[0].args and bool(key) and isinstance(key[0], ast.Lambda) and u(key[0].body) == "%s.block_id" % key[0].args.args[0].arg and not any(k.arg == "reverse" for k in srt[0].keywords)
+            sn, an = cfg.node_containing(srt[0]), cfg.node_containing(agg[0])
+            # nothing touches the list between the sort and the aggregation, and the sort is not skipped
+            touch = {cfg.node_containing(c) for c in ctx.prog.calls_in(fi.node) if isinstance(c.func, ast.Attribute) and u(c.func.value) == rname and c.func.attr in ("append", "extend", "insert", "reverse", "pop", "remove", "sort") and c is not srt[0]} | {cfg.node_of(s2) for s2, v2 in defs if s2 is not s}
+            ok = ok and cfg.find_path(cfg.node_of(s), an, avoid_nodes=[sn]) is None and all(not (cfg.find_path(sn, t_) is not None and cfg.find_path(t_, an) is not None) for t_ in touch)
+            ctx.ob(fi.qual, "results-order:pool", ok, fi.loc(s), "pool results are sorted by block_id (in place) before aggregation" if ok else "pool results are not sorted by block_id before aggregation: %s" % u(srt[0]))
         else:
             ctx.ob(fi.qual, "results-order:%s" % u(v)[:40], False, fi.loc(s), "`%s = %s` reaches aggregate_results without an ascending-block-id guarantee" % (rname, u(v)[:80]))
     # handles consumed in submission order
